@@ -76,9 +76,11 @@ def sub(pattern, repl, string, count=0, flags=0):
     if callable(repl):
         text = repl(_Poison())
     else:
-        text = repl
-        if '\\' in text:
-            raise Unsupported('replacement template with backslashes')
+        # a template string: let the real re module expand it (it has no group to refer to in this pattern family)
+        try:
+            text = _re.sub('x', repl, 'x')
+        except _re.error as e:
+            raise Unsupported('replacement template %r: %s' % (repl, e))
     if not isinstance(text, str):
         raise Unsupported('replacement is not a constant string')
     nb = string.neighbours()
